@@ -110,7 +110,10 @@ def rec(rep, ex: Explorer, cls: str):
     def setup(I):
         s, es = _self_with_partition(I, cls)
         solver = I.alloc(HSolver("pysmt", frames=[[HEAD]]))
-        return [s, solver, LinV(K), make_query()], {}
+        q = make_query()
+        from ..harness import bind_by_role
+
+        return bind_by_role(ex.prog, qual, {"self": s, "solver": solver, "partition_index": LinV(K), "query": q, "partition": I.deref(es).entries["partition"]}, [s, solver, LinV(K), q])
 
     paths = ex.run(qual, setup, summaries=wrappers.SUMMARIES, key="zrec")
     # The walk over the layers is written either as a self-call on k-1 or as a loop that decrements the index.  In the
@@ -344,6 +347,8 @@ def _index_arg(rc):
             args = list(rc.args)
             if len(args) == len(params) - 1 and params and params[0].arg == "self":
                 args = [None] + args  # summaries of bound calls may omit the receiver
+            if len(args) == len(params) + 1 and "staticmethod" in fi.decorators:
+                args = args[1:]  # (the empty place of the receiver a summary of a static method is given)
             v = args[i] if i < len(args) else rc.kwargs.get(params[i].arg)
             return v.lin if isinstance(v, LinV) else None
     for a in rc.args:
